@@ -242,7 +242,8 @@ def outcome_for(r, sig_out, token):
         return ('raise', e), ('error', 'org.verif.Error.Custom', 'named ' + token)
     if k < 0.86:
         e = err_class(token)('badname ' + token)
-        e.dbusErrorName = r.choice(['nodots', '1.starts.with.digit', 'a..b', 'has space.x', ''])
+        e.dbusErrorName = r.choice(['nodots', '1.starts.with.digit', 'a..b', 'has space.x', '', 'a.b\0c', 'a.b\udc80',
+                                    'a.b\nc', 'a.' + 'b' * 300])
         if e.dbusErrorName == '':
             e.dbusErrorName = 'x y'
         return ('raise', e), ('error', 'org.txdbus.InvalidErrorName', 'badname ' + token)
@@ -332,8 +333,10 @@ def drive(ctx, seed, idx, r, d, peer, case):
                 fields['sender'] = sender
             if iface is not None:
                 fields['interface'] = iface
+            # other flag bits (ALLOW_INTERACTIVE_AUTHORIZATION, bits unknown to this implementation) must be ignored
+            other_bits = r.choice([0, 0, 0, 2, 4, 8, 0x80, 0x86])
             raw = RM.build(RM.METHOD_CALL, serial, fields, sig_in, tv, r.random() < 0.8,
-                           flags=RM.NO_REPLY_EXPECTED if no_reply else 0)
+                           flags=(RM.NO_REPLY_EXPECTED if no_reply else 0) | other_bits)
             outs = d.lookup(path, iface, member, sig_in)
             holder = []
             plan = {}
@@ -543,6 +546,10 @@ def classify_noreply(c):
 
 
 def classify_missing(c):
+    e = c['entry'][1] if c.get('entry') and c['entry'][0] == 'raise' else None
+    name = getattr(e, 'dbusErrorName', None)
+    if isinstance(name, str) and ('\0' in name or any(0xD800 <= ord(ch) <= 0xDFFF for ch in name)):
+        return 'invalid-error-name-unencodable'
     return None
 
 
